@@ -266,20 +266,27 @@ pub fn cond_alphabet() -> Vec<CondForm> {
         v.push(Direct(op, ad.0, ad.1));
     }
     v.push(Flag);
-    // 17
+    // 17: comparisons with the boundary constants (signed max, signed min), constant in both operand positions
+    const SMAX: i64 = i64::MAX;
+    const SMIN: i64 = i64::MIN;
+    for (l, r) in [(Opd::C(SMAX), Opd::R(A)), (Opd::R(A), Opd::C(SMAX)), (Opd::C(SMIN), Opd::R(A)), (Opd::R(A), Opd::C(SMIN))] {
+        for op in CMPS {
+            v.push(Direct(op, l, r));
+        }
+    }
+    // 41
     for op in CMPS {
         v.push(FlagOf(op, a5.0, a5.1));
     }
     v.push(Direct(BinOpType::IntLessEqual, ad.0, ad.1));
     v.push(Direct(BinOpType::IntSLessEqual, ad.0, ad.1));
     v.push(NotFlag);
-    // 26
-    for (l, r) in [(Opd::R(D), Opd::C(0)), (Opd::R(A), Opd::C(1023)), (Opd::R(D), Opd::R(S)), (Opd::R(A), Opd::C(-1)), (Opd::C(5), Opd::R(A)), (Opd::R(A), Opd::C(0))] {
+    // 50
+    for (l, r) in [(Opd::R(A), Opd::C(1)), (Opd::C(1), Opd::R(A)), (Opd::C(-1), Opd::R(A)), (Opd::R(D), Opd::C(0)), (Opd::R(A), Opd::C(1023)), (Opd::R(D), Opd::R(S)), (Opd::R(A), Opd::C(-1)), (Opd::C(5), Opd::R(A)), (Opd::R(A), Opd::C(0))] {
         for op in CMPS {
             v.push(Direct(op, l, r));
         }
     }
-    // 62
     for op in CMPS {
         v.push(NotFlagOf(op, ad.0, ad.1));
     }
@@ -314,8 +321,8 @@ pub fn skeleton_sizes(level: u32, s: usize) -> (usize, usize, usize, usize) {
     if level == 0 {
         match s {
             0 => (50, 0, 0, 0),
-            1 => (9, 3, 17, 0),
-            2 => (16, 3, 17, 0),
+            1 => (9, 3, 41, 0),
+            2 => (16, 3, 41, 0),
             3 => (9, 3, 17, 0),
             4 => (9, 0, 17, 3),
             _ => (8, 3, 17, 3),
@@ -323,11 +330,11 @@ pub fn skeleton_sizes(level: u32, s: usize) -> (usize, usize, usize, usize) {
     } else {
         match s {
             0 => (ALL, 0, 0, 0),
-            1 => (16, 6, 48, 0),
-            2 => (30, 6, 48, 0),
-            3 => (16, 6, 48, 0),
-            4 => (16, 0, 30, 8),
-            _ => (12, 5, 24, 6),
+            1 => (16, 6, 72, 0),
+            2 => (30, 6, 72, 0),
+            3 => (16, 6, 72, 0),
+            4 => (16, 0, 41, 8),
+            _ => (12, 5, 29, 6),
         }
     }
 }
